@@ -87,6 +87,17 @@ Proof.
   exists st, bt. auto.
 Qed.
 
+(* canonical links are honest: a link entry carries the metadata of the entry it names
+   (hypothesis AbsDest.links_meta of receive_fresh_proof, C02/C05) *)
+Lemma links_canon_meta B : sorted (map fst B) -> links_canon B -> AbsDest.links_meta B.
+Proof.
+  intros HS H sb bb st bt Hin Hl Ht Ep.
+  destruct (H sb bb Hin Hl) as (st' & bt' & H1 & H2 & _ & _ & _ & Hm & _).
+  assert (st' = st).
+  { apply (sorted_unique (map fst B)); auto; [apply (in_map fst _ _ H1)|apply (in_map fst _ _ Ht)|congruence]. }
+  subst st'. exact Hm.
+Qed.
+
 Lemma link_meta_eqb_iff t s : link_meta_eqb t s = true <-> link_meta_eq t s.
 Proof. unfold link_meta_eqb, link_meta_eq. rewrite !andb_true_iff, !N.eqb_eq, DiffSpecP.xattrs_eqb_eq. tauto. Qed.
 
@@ -237,20 +248,20 @@ Lemma fresh_run :
 Proof.
   destruct (apply_all (src_of B) (diff idf d LA LB) (dest_of A) n0) as [[[D n] dn] e] eqn:E.
   pose proof (receive_abs_unfold H hdr d A B Fresh D n dn e E) as Hu. cbv zeta in Hu.
-  destruct (receive_fresh_proof H hdr d A B HwA HwB (links_canon_ok _ HlB) Hfaith) as (He & Hc & _).
+  destruct (receive_fresh_proof H hdr d A B HwA HwB (links_canon_ok _ HlB) Hfaith (links_canon_meta _ (proj1 HwB) HlB)) as (He & Hc & _).
   cbv zeta in He, Hc. rewrite Hu in He, Hc. simpl in He, Hc. subst e dn.
   exists n. unfold R, r. rewrite Hu. reflexivity.
 Qed.
 
 Lemma fresh_view p : view_equiv (alookup p R) (efind p B).
 Proof.
-  destruct (receive_fresh_proof H hdr d A B HwA HwB (links_canon_ok _ HlB) Hfaith) as (_ & _ & Hv & _).
+  destruct (receive_fresh_proof H hdr d A B HwA HwB (links_canon_ok _ HlB) Hfaith (links_canon_meta _ (proj1 HwB) HlB)) as (_ & _ & Hv & _).
   apply Hv.
 Qed.
 
 Lemma fresh_unchanged p : unchanged d A B p -> alookup p R = alookup p (dest_of A).
 Proof.
-  destruct (receive_fresh_proof H hdr d A B HwA HwB (links_canon_ok _ HlB) Hfaith) as (_ & _ & _ & Hu & _).
+  destruct (receive_fresh_proof H hdr d A B HwA HwB (links_canon_ok _ HlB) Hfaith (links_canon_meta _ (proj1 HwB) HlB)) as (_ & _ & _ & Hu & _).
   apply Hu.
 Qed.
 
@@ -277,15 +288,18 @@ Proof.
     exact (lookup_none _ _ El).
 Qed.
 
+(* a re-created entry holds exactly the source's stat — except a hard link, which shows the
+   metadata of the inode it joined (AbsDest.link_stat) under its own path *)
 Lemma fresh_changed k b : k <> KDelete -> In (k, st_path b, Some b) (diff idf d LA LB) ->
-  exists e, alookup (st_path b) R = Some e /\ de_stat e = b /\
+  exists e, alookup (st_path b) R = Some e /\ (is_hardlink b = false -> de_stat e = b) /\
     (is_hardlink b = true -> compare_path (st_linkname b) (st_path b) = Lt ->
-       exists t, alookup (st_linkname b) R = Some t /\ de_ino e = de_ino t).
+       exists t, alookup (st_linkname b) R = Some t /\ de_ino e = de_ino t /\
+                 de_stat e = link_stat (de_stat t) b).
 Proof.
   intros Hk Hin. destruct fresh_run as [nR E]. destruct HwA as [HsA HcA], HwB as [HsB HcB].
   destruct (changed_final _ _ _ _ _ _ _ _ _ _ (diff_sorted_proof idf d LA LB HsA HsB HcB (fun s => eq_refl)) E Hin Hk)
     as (e & He & Es & Hl & _).
-  exists e. split; auto. split; auto. intros Hh Hlt. destruct (Hl Hh Hlt) as (t & Ht & _ & Ei & _). eauto.
+  exists e. split; auto. split; auto. intros Hh Hlt. destruct (Hl Hh Hlt) as (t & Ht & _ & Ei & _ & Est). eauto.
 Qed.
 
 Lemma B_entry s c : In (s, c) B -> efind (st_path s) B = Some (s, c).
@@ -317,11 +331,37 @@ Proof.
     eapply (find_entry_none _ _ Ef (a, ba)); eauto.
 Qed.
 
-Lemma fresh_created s c : In (s, c) B -> created_by_transfer A s = true ->
+Lemma fresh_created s c : In (s, c) B -> created_by_transfer A s = true -> is_hardlink s = false ->
   exists e, alookup (st_path s) R = Some e /\ de_stat e = s.
 Proof.
-  intros Hin Hc. destruct (fresh_created_change s c Hin Hc) as (k & Hk & Hd).
+  intros Hin Hc Hn. destruct (fresh_created_change s c Hin Hc) as (k & Hk & Hd).
   destruct (fresh_changed k s Hk Hd) as (e & He & Es & _). eauto.
+Qed.
+
+(* ... also for a hard link whose whole inode the transfer created: the first name of its group
+   was re-created with the source's stat, and a canonical link entry carries the same metadata *)
+Lemma fresh_created_inode s c : In (s, c) B -> inode_created A B s = true ->
+  Converge.is_reg s = true \/ is_hardlink s = false ->
+  exists e, alookup (st_path s) R = Some e /\ de_stat e = s.
+Proof.
+  intros Hin Hic Hty. unfold inode_created in Hic. apply andb_true_iff in Hic. destruct Hic as [Hc1 Hc2].
+  destruct (is_hardlink s) eqn:Hh; [|apply (fresh_created s c); auto].
+  destruct Hty as [Hcreg|?]; [|discriminate]. rewrite Hcreg in Hc2.
+  pose proof HwB as [HsB HcB].
+  destruct (HlB s c Hin Hh) as (st & bt & Hst & Ep & Hlt & _ & Ent & Hmeta & _).
+  destruct (is_hardlink_reg _ Hh) as [_ Hln].
+  destruct (st_linkname s) as [|l0 l] eqn:El; [congruence|].
+  destruct (find_entry (l0 :: l) B) as [[t' ct']|] eqn:Ef; [|discriminate].
+  apply find_entry_some in Ef. destruct Ef as [Ht' Ep']. simpl in Ep'.
+  assert (t' = st).
+  { apply (sorted_unique LB); auto; [apply (in_map fst _ _ Ht')|apply (in_map fst _ _ Hst)|congruence]. }
+  subst t'.
+  destruct (fresh_created st bt Hst Hc2 (nolink_not_hardlink _ Ent)) as (et & Het & Est).
+  destruct (fresh_created_change s c Hin Hc1) as (k & Hk & Hd).
+  destruct (fresh_changed k s Hk Hd) as (e & He & _ & Hl).
+  destruct (Hl Hh) as (t & Ht & _ & Es); [rewrite El, <- Ep; exact Hlt|].
+  rewrite El, <- Ep, Het in Ht. inversion Ht; subst t.
+  exists e. split; auto. rewrite Es, Est. apply link_stat_honest. exact Hmeta.
 Qed.
 
 Lemma fresh_entry_ok s c : In (s, c) B ->
@@ -331,19 +371,23 @@ Proof.
   exists (obs_of_dentry (st_path s) x). rewrite find_obs_view_of, Hx. split; [reflexivity|].
   destruct (same_file_fields _ _ _ Hs) as (_ & Hc & Hnd).
   destruct (compare_stat_fields _ _ Hc) as (Em & Eu & Eg & Ema & Emi & El).
-  assert (Hcr : inode_created A B s = true -> de_stat x = s).
-  { intros Hcr. unfold inode_created in Hcr. apply andb_true_iff in Hcr. destruct Hcr as [Hcr _]. destruct (fresh_created s c Hin Hcr) as (e & He & Es). rewrite Hx in He. inversion He; subst. auto. }
+  assert (Hcr : inode_created A B s = true -> Converge.is_reg s = true \/ is_hardlink s = false -> de_stat x = s).
+  { intros Hcr Hty. destruct (fresh_created_inode s c Hin Hcr Hty) as (e & He & Es). rewrite Hx in He. inversion He; subst. auto. }
   unfold entry_ok, obs_of_dentry. cbv zeta. simpl.
   rewrite Em. split; [reflexivity|]. split; [reflexivity|]. split; [reflexivity|].
   split; [auto|]. split; [auto|].
   split.
   { intros Hn. apply Hnd. unfold st_is_dir. rewrite Em.
     destruct (mode_is_dir (st_mode s)) eqn:Ed; auto. exfalso. apply Hn. apply unix_type_dir; auto. }
-  split. { intros _ Hcr'. rewrite (Hcr Hcr'). reflexivity. }
+  split.
+  { intros Hty Hcr'. rewrite (Hcr Hcr'); [reflexivity|]. right.
+    apply unix_type_dir in Hty. unfold is_hardlink, AbsDest.is_reg, st_is_dir. rewrite Hty. reflexivity. }
   split.
   { intros Hr. apply Hb. apply conv_reg_abs_reg. unfold Converge.is_reg. rewrite Hr. apply N.eqb_refl. }
   split; [auto|]. split; [auto|].
-  intros Hcr' _. rewrite (Hcr Hcr'). reflexivity.
+  intros Hcr' Hty. rewrite (Hcr Hcr'); [reflexivity|]. destruct Hty as [Hty|Hty].
+  - left. unfold Converge.is_reg. rewrite Hty. reflexivity.
+  - right. apply unix_type_dir in Hty. unfold is_hardlink, AbsDest.is_reg, st_is_dir. rewrite Hty. reflexivity.
 Qed.
 
 (* a link entry that is unchanged has an unchanged target: the old listing holds a canonical link
@@ -407,7 +451,7 @@ Proof.
       rewrite Epa, Hxt in Ht'. rewrite Ea, Hx in He'. inversion Ht'; inversion He'; subst. auto.
     + destruct (fresh_changed k s Hk Hd) as (e & He & _ & Hl).
       rewrite Hx in He. inversion He; subst e.
-      destruct (Hl Hh) as (t' & Ht' & Ei); [rewrite <- Ep; exact Hlt|].
+      destruct (Hl Hh) as (t' & Ht' & Ei & _); [rewrite <- Ep; exact Hlt|].
       rewrite <- Ep, Hxt in Ht'. inversion Ht'; subst. auto.
 Qed.
 
@@ -463,21 +507,22 @@ Proof.
   (* the first name of the group of s *)
   assert (Hrep : exists srep crep erep, In (srep, crep) B /\ st_path srep = group_rep s /\
             created_by_transfer A srep = true /\ alookup (st_path srep) R = Some erep /\
-            de_ino erep = de_ino x /\ is_hardlink (de_stat erep) = false /\ st_xattrs srep = st_xattrs s).
+            de_ino erep = de_ino x /\ is_hardlink (de_stat erep) = false /\ st_xattrs srep = st_xattrs s /\
+            is_hardlink srep = false).
   { unfold inode_created in Hic. apply andb_true_iff in Hic. destruct Hic as [Hc1 Hc2].
     destruct (fresh_rep s c x Hin Hreg Hx) as (t & Ht & Hit & Htn).
     unfold group_rep in *. destruct (st_linkname s) as [|l0 l] eqn:El.
-    - exists s, c, t. repeat split; auto.
+    - exists s, c, t. repeat split; auto. apply nolink_not_hardlink; auto.
     - assert (Hh : is_hardlink s = true) by (unfold is_hardlink; rewrite Hreg, El; reflexivity).
-      destruct (HlB s c Hin Hh) as (st & bt & Hst & Ep & _ & _ & _ & Hmeta & _).
+      destruct (HlB s c Hin Hh) as (st & bt & Hst & Ep & _ & _ & Ent & Hmeta & _).
       rewrite El in Ep. rewrite Hcreg in Hc2.
       destruct (find_entry (l0 :: l) B) as [[t' ct']|] eqn:Ef; [|discriminate].
       apply find_entry_some in Ef. destruct Ef as [Ht' Ep']. simpl in Ep'.
       assert (t' = st).
       { apply (sorted_unique LB); auto; [apply (in_map fst _ _ Ht')|apply (in_map fst _ _ Hst)|congruence]. }
-      subst t'. exists st, bt, t. rewrite Ep. repeat split; auto. apply Hmeta. }
-  destruct Hrep as (srep & crep & erep & Hsrep & EP & Hcr & Herep & Hirep & Hnrep & Exr).
-  destruct (fresh_created srep crep Hsrep Hcr) as (e' & He' & Es'). rewrite Herep in He'. inversion He'; subst e'.
+      subst t'. exists st, bt, t. rewrite Ep. repeat split; auto; [apply Hmeta|apply nolink_not_hardlink; auto]. }
+  destruct Hrep as (srep & crep & erep & Hsrep & EP & Hcr & Herep & Hirep & Hnrep & Exr & Hnl).
+  destruct (fresh_created srep crep Hsrep Hcr Hnl) as (e' & He' & Es'). rewrite Herep in He'. inversion He'; subst e'.
   destruct (list_eq_dec N.eq_dec q (st_path srep)) as [Eq|Nq].
   { subst q. rewrite Herep in Hq. inversion Hq; subst v. rewrite Es'. exact Exr. }
   (* another name of that inode: a link entry of the group *)
@@ -507,14 +552,16 @@ Proof.
     destruct (unchanged_link_target sq cq a ba srep bt' Hsq Hhq Ha Ea Es Hst' Ep' Ent' Hmeta')
       as (at_ & bat & Hat & Epa & Hsame & _).
     rewrite (not_created_if_same_file at_ srep (in_map fst _ _ Hat) Epa Hsame) in Hcr. discriminate.
-  - destruct (fresh_changed k sq Hk Hd) as (e & He & Ese & _). rewrite Hq in He. inversion He; subst e.
-    rewrite Ese. destruct Hmeta' as (_ & _ & _ & _ & _ & _ & _ & Ex'). congruence.
+  - destruct (fresh_changed k sq Hk Hd) as (e & He & _ & Hle). rewrite Hq in He. inversion He; subst e.
+    destruct (Hle Hhq) as (t & Ht & _ & Ese); [rewrite <- Ep'; exact Hlt'|].
+    rewrite <- Ep', Herep in Ht. inversion Ht; subst t.
+    rewrite Ese, Es', (link_stat_honest _ _ Hmeta'). destruct Hmeta' as (_ & _ & _ & _ & _ & _ & _ & Ex'). congruence.
 Qed.
 
 Theorem diff_apply_converges_proof : ds_err r = false /\ approx A B (view_of R).
 Proof.
   split.
-  - destruct (receive_fresh_proof H hdr d A B HwA HwB (links_canon_ok _ HlB) Hfaith) as (He & _). exact He.
+  - destruct (receive_fresh_proof H hdr d A B HwA HwB (links_canon_ok _ HlB) Hfaith (links_canon_meta _ (proj1 HwB) HlB)) as (He & _). exact He.
   - split; [|split].
     + intros p. rewrite find_obs_view_of. pose proof (fresh_view p) as Hv. split.
       * intros [dd Hd]. destruct (alookup p R) as [x|]; [|discriminate].
